@@ -367,6 +367,9 @@ def run_check(cid, tier, seed, n_override=None, wall_override=None, workers=None
         "%s tier=%s seed=%d runs=%d/%d distinct_nontrivial=%d wall=%.1fs known=%d unknown_violations=%d"
         % (cid, tier, seed, done, n_plans, len(keys), wall_s, sum(known_hits.values()), len(unknown))
     )
+    if unknown:
+        hist = Counter(v["clause"] for _, _, v in unknown)
+        print("  failing clauses: %s" % ", ".join("%s x%d" % kv for kv in sorted(hist.items())))
     for ln in lines:
         print(ln)
     sys.stdout.flush()
